@@ -441,6 +441,26 @@ func execOp(s *Sexp) string {
 			}
 			return "ok"
 		})
+	case "jdescdeep":
+		// (jdescdeep N): one-element JSON arrays nested N deep, walked with the Descriptor into the JSON
+		// outputter: how large is the output (and so the memory) for how much input? Oracle only.
+		n, err := strconv.Atoi(arg(1))
+		if err != nil || n < 1 || n > 100000 {
+			return "bad-op"
+		}
+		return guard(func() string {
+			data := deepArrayBytes(n)
+			c, err := jsonInstance().CodecForType(reflect.TypeOf([]interface{}(nil)))
+			if err != nil {
+				return "err"
+			}
+			d := c.Descriptor()
+			var out plenccodec.JSONOutput
+			if err := d.Read(&out, data); err != nil {
+				return "err"
+			}
+			return fmt.Sprintf("ok %d %d", len(out.Done()), len(data))
+		})
 	case "gcptrs":
 		// (gcptrs KIND N): a slice of N pointers is decoded; the pointers are only reachable through the
 		// decoded slice; after garbage collections and fresh allocations every pointee is still there
